@@ -957,6 +957,9 @@ fn mutations(c: &mut Ctx, base: &[u8], l: &Layout, ext_footer: bool) -> Vec<(Str
         b[o + ts..o + ts + 4].copy_from_slice(&i32::MIN.to_be_bytes());
         out.push(("mut.leap.corr".into(), b, true));
         let mut b = base.to_vec();
+        b[o + ts..o + ts + 4].copy_from_slice(&0i32.to_be_bytes());
+        out.push(("mut.leap.corr".into(), b, true));
+        let mut b = base.to_vec();
         if ts == 8 {
             b[o..o + 8].copy_from_slice(&(-1i64).to_be_bytes());
         } else {
